@@ -32,3 +32,47 @@ class Isolation(SysTarget):
 
 
 TARGETS = {"codebasin.finder:find@loop4": Isolation("isolation", ("multi", "forced", "computed"), quick_n=250, thorough_n=4000)}
+
+
+# ---- a fixed program on which expansion in one translation unit used to write into the shared parse tree of a header ----
+from native import recorded as _R      # noqa: E402
+
+
+class SharedTree:
+    """[a.c, b.c] == [b.c, a.c] == union of the two commands alone, for a header whose computed #include goes through
+    ## and # (the pasted token's white-space flag lives in the header's cached tree)"""
+    proved = False
+    role = "bounded check: one fixed program, every order / split of its two commands"
+
+    def bound(self, tier):
+        return "1 fixed program x (2 orders + 2 single-command runs + 2 platforms)"
+
+    def inputs(self, tier, seed):
+        yield {"k": 0}
+
+    def nontrivial(self, inp):
+        return True
+
+    FILES = {"sel.h": "#define STR_(x) #x\n#define STR(x) STR_(x)\n#include STR(IMPL(impl/k,_cpu,))\n",
+             "impl/k_cpu.h": "int cpu_kernel;\n", "gen/impl/k.h": "int generic_kernel;\n",
+             "a.c": "#define EMPTY\n#define IMPL(a,b,c) EMPTY a##b.h\n#include \"sel.h\"\n",
+             "b.c": "#define IMPL(a,b,c) gen/c##a.h\n#include \"sel.h\"\n"}
+
+    def check(self, inp):
+        import os
+        with _R.tree(self.FILES) as root:
+            def e(n):
+                return {"file": os.path.join(root, n), "defines": [], "include_paths": [], "include_files": []}
+
+            def used(entries):
+                return {(f, ln) for f, ls in _R.used_lines(root, entries).items() for ln in ls}
+            want = used([e("a.c")]) | used([e("b.c")])
+            for label, cmds in (("[a.c, b.c]", [e("a.c"), e("b.c")]), ("[b.c, a.c]", [e("b.c"), e("a.c")])):
+                got = used(cmds)
+                if got != want:
+                    return {"expected": f"commands {label}: the union of the two commands analysed alone {sorted(want)}",
+                            "observed": f"missing {sorted(want - got)}, extra {sorted(got - want)}", "klass": "isolation:shared-tree-mutated"}
+        return None
+
+
+TARGETS["codebasin.preprocessor:MacroFunction.replace"] = SharedTree()
